@@ -91,6 +91,17 @@ type World struct {
 	KeyIdx   []int        // blob index of the public-key blob of Ids[k]
 	Withheld map[int]bool // blobs that never arrive anywhere
 	byRef    map[blob.Ref]int
+	// foreignEvery > 0: every foreignEvery-th signed blob is written with whitespace in front of
+	// "camliVersion", as a foreign serializer may (vsign.SignStyled)
+	foreignEvery, nSigned int
+}
+
+func (w *World) nextStyle() int {
+	w.nSigned++
+	if w.foreignEvery <= 0 || w.nSigned%w.foreignEvery != 0 {
+		return 0
+	}
+	return 1 + (w.nSigned/w.foreignEvery)%(vsign.NumLeadStyles-1)
 }
 
 // Config bounds the generator.
@@ -252,6 +263,7 @@ func (g *dateGen) draw(t *rapid.T, group int) time.Time {
 // Draw generates a world.
 func Draw(t *rapid.T, cfg Config) *World {
 	w := &World{Withheld: map[int]bool{}, byRef: map[blob.Ref]int{}}
+	w.foreignEvery = rapid.SampledFrom([]int{0, 0, 3, 7}).Draw(t, "foreignSerializerEvery")
 	attrs, values := cfg.Attrs, cfg.Values
 	if attrs == nil {
 		attrs = DefaultAttrs
@@ -340,7 +352,7 @@ func Draw(t *rapid.T, cfg Config) *World {
 	for p := 0; p < np; p++ {
 		sg := rapid.IntRange(0, len(w.Ids)-1).Draw(t, "pnSigner")
 		bb := schema.NewPlannedPermanode(fmt.Sprintf("verif-pn-%d-%d", p, rapid.IntRange(0, 3).Draw(t, "pnKey")))
-		tb := w.Ids[sg].MustSign(bb, SigTime)
+		tb := w.Ids[sg].SignStyled(bb, SigTime, w.nextStyle())
 		bi := w.add(&Blob{Kind: KPermanode, Contents: tb.Contents, CamliType: "permanode", Signer: sg, StaticSet: -1, FetchDeps: []int{w.KeyIdx[sg]}})
 		w.Blobs[bi].Label = fmt.Sprintf("P%d", bi)
 		pns = append(pns, bi)
@@ -385,7 +397,7 @@ func Draw(t *rapid.T, cfg Config) *World {
 			bb = schema.NewDelAttributeClaim(w.Blobs[pn].Ref, attr, val)
 		}
 		bb.SetClaimDate(date)
-		tb := w.Ids[sg].MustSign(bb, SigTime)
+		tb := w.Ids[sg].SignStyled(bb, SigTime, w.nextStyle())
 		bi := w.add(&Blob{Kind: KAttr, Contents: tb.Contents, CamliType: "claim", Signer: sg, StaticSet: -1, FetchDeps: []int{w.KeyIdx[sg]},
 			Claim: &Claim{Type: typ, Permanode: pn, Attr: attr, Value: val, Target: -1, Date: date, DateStr: schema.RFC3339FromTime(date)}})
 		w.Blobs[bi].Label = fmt.Sprintf("C%d[%s %s=%q on P%d @%s by %s]", bi, typ, attr, val, pn, schema.RFC3339FromTime(date), w.Ids[sg].Name)
@@ -412,7 +424,7 @@ func Draw(t *rapid.T, cfg Config) *World {
 			date := dg.draw(t, group[target])
 			bb := schema.NewDeleteClaim(w.Blobs[target].Ref)
 			bb.SetClaimDate(date)
-			tb := w.Ids[sg].MustSign(bb, SigTime)
+			tb := w.Ids[sg].SignStyled(bb, SigTime, w.nextStyle())
 			bi := w.add(&Blob{Kind: KDelete, Contents: tb.Contents, CamliType: "claim", Signer: sg, StaticSet: -1, FetchDeps: []int{w.KeyIdx[sg]},
 				Claim: &Claim{Type: "delete", Permanode: -1, Target: target, Date: date, DateStr: schema.RFC3339FromTime(date)}})
 			if w.Blobs[bi].Label == "" {
